@@ -135,18 +135,28 @@ Proof.
 Qed.
 
 Lemma wf_account_parts : forall a, wf_account a = true ->
-  exists c r, a = c :: r /\ is_white_space c = false /\ nonstop c = true /\ acct_tail r = true.
+  exists c r, a = c :: r /\ nonstop c = true /\ acct_tail r = true /\ trim a <> [].
 Proof.
-  intros [| c r] H; [discriminate |]. simpl in H. rewrite !andb_true_iff in H. destruct H as [[H1 H2] H3].
-  exists c, r. split; [reflexivity |]. apply negb_true_iff in H1. auto.
+  intros [| c r] H; [discriminate |]. unfold wf_account in H. rewrite !andb_true_iff in H.
+  destruct H as [[H1 H2] H3].
+  exists c, r. split; [reflexivity |]. split; [exact H1 |]. split; [exact H2 |].
+  intros E. rewrite E in H3. discriminate.
+Qed.
+
+Lemma nonstop_facts : forall c, nonstop c = true ->
+  is_sp c = false /\ (c =? 10) = false /\ (c =? 13) = false /\ (c =? 32) = false.
+Proof.
+  intros c H. unfold nonstop in H. apply negb_true_iff in H. unfold is_account_stop in H.
+  repeat (apply orb_false_iff in H; destruct H as [H ?]).
+  unfold is_sp. repeat split; auto. apply orb_false_iff. auto.
 Qed.
 
 Lemma account_run : forall fuel a k, wf_account a = true -> follow_account k -> (length a <= fuel)%nat ->
   repeat_till1 fuel acc_word acc_end (a ++ k) = POk tt k.
 Proof.
-  intros fuel a k W F L. destruct (wf_account_parts a W) as (c & r & -> & Hws & Hc & T).
+  intros fuel a k W F L. destruct (wf_account_parts a W) as (c & r & -> & Hc & T & _).
   assert (T' : acct_tail (c :: r) = true).
-  { cbn [acct_tail]. destruct (N.eqb_spec c 32) as [-> | _]; [discriminate |]. rewrite T.
+  { cbn [acct_tail]. destruct (nonstop_facts c Hc) as (_ & _ & _ & H32). rewrite H32. rewrite T.
     unfold nonstop in Hc. rewrite Hc. reflexivity. }
   destruct (acct_tail_word (c :: r) T') as (w & s' & E & Hw & Ts' & Bs').
   assert (Wne : w <> []).
@@ -155,20 +165,24 @@ Proof.
   unfold repeat_till1, bind. rewrite E, <- app_assoc.
   assert (H32 : starts_not (N.eqb 32) w).
   { destruct w as [| c' w']; [congruence |]. inversion E; subst. unfold starts_not.
-    destruct (N.eqb_spec 32 c'); [subst; discriminate | reflexivity]. }
+    destruct (nonstop_facts c' Hc) as (_ & _ & _ & H32). rewrite N.eqb_sym. exact H32. }
   rewrite (acc_word_ok w (s' ++ k) Wne Hw (tail_follow_stop s' k Bs' F) H32).
   assert (Ls : (length s' <= fuel)%nat).
   { apply (f_equal (@length N)) in E. rewrite app_length in E. simpl in *. lia. }
   apply (acc_loop (length s') s' k fuel); auto.
 Qed.
 
-Lemma trim_start_id : forall c r, is_white_space c = false -> trim_start (c :: r) = c :: r.
-Proof. intros c r H. simpl. rewrite H. reflexivity. Qed.
+Lemma trim_start_spaces_id : forall c r, (c =? 32) = false -> trim_start_spaces (c :: r) = c :: r.
+Proof.
+  intros c r H. cbn [trim_start_spaces]. destruct c as [| p]; [reflexivity |].
+  apply N.eqb_neq in H.
+  do 6 (destruct p as [p | p |]; try reflexivity). exfalso. apply H. reflexivity.
+Qed.
 
 Lemma posting_account_eq : forall fuel, posting_account fuel =
   terminated
-    (with_span (try_map (pmap trim_start (taken (repeat_till1 fuel acc_word acc_end)))
-                        (fun x => match x with [] => None | _ => Some x end)))
+    (with_span (try_map (pmap trim_start_spaces (taken (repeat_till1 fuel acc_word acc_end)))
+                        (fun x => match trim x with [] => None | _ => Some x end)))
     space0.
 Proof. reflexivity. Qed.
 
@@ -177,12 +191,14 @@ Theorem posting_account_fmt : forall fuel a k, wf_account a = true -> follow_acc
   exists sp, posting_account fuel (a ++ k) = POk (a, sp) (skip_sp k).
 Proof.
   intros fuel a k W F L. pose proof (account_run fuel a k W F L) as R.
-  destruct (wf_account_parts a W) as (c & r & Ea & Hws & _ & _).
+  destruct (wf_account_parts a W) as (c & r & Ea & Hc & _ & Htr).
   rewrite posting_account_eq. unfold terminated.
-  assert (E : try_map (pmap trim_start (taken (repeat_till1 fuel acc_word acc_end)))
-                (fun x => match x with [] => None | _ => Some x end) (a ++ k) = POk a k).
-  { unfold try_map. rewrite (pmap_ok _ _ trim_start _ _ _ _ (taken_ok _ _ _ _ _ R)).
-    rewrite Ea. rewrite trim_start_id by exact Hws. reflexivity. }
+  assert (E : try_map (pmap trim_start_spaces (taken (repeat_till1 fuel acc_word acc_end)))
+                (fun x => match trim x with [] => None | _ => Some x end) (a ++ k) = POk a k).
+  { unfold try_map. rewrite (pmap_ok _ _ trim_start_spaces _ _ _ _ (taken_ok _ _ _ _ _ R)).
+    destruct (nonstop_facts c Hc) as (_ & _ & _ & H32).
+    assert (Ts : trim_start_spaces a = a) by (rewrite Ea; apply trim_start_spaces_id; exact H32).
+    rewrite Ts. destruct (trim a); [congruence | reflexivity]. }
   rewrite (bind_ok _ _ _ _ _ _ _ (with_span_ok _ _ _ _ _ E)).
   destruct (space0_skip k) as [s Es]. rewrite (bind_ok _ _ _ _ _ _ _ Es).
   eexists. reflexivity.
@@ -352,7 +368,8 @@ Proof.
   cbn [sp_account sp_clear sp_amount sp_balance sp_metadata] in *.
   unfold wf_posting in W. cbn [sp_account sp_clear sp_amount sp_balance sp_metadata] in W.
   rewrite !andb_true_iff in W. destruct W as [[[[Wa Wc] Wam] Wb] Wms].
-  destruct (wf_account_parts acct Wa) as (c0 & r0 & Eacct & Hws & Hns & _).
+  destruct (wf_account_parts acct Wa) as (c0 & r0 & Eacct & Hns & _ & _).
+  destruct (nonstop_facts c0 Hns) as (Hsp0 & _ & _ & _).
   rewrite !app_length in L.
   set (NL := nl_tail ms k) in *.
   set (T0 := am_text n am ++ bal_text m bal ++ NL).
@@ -361,13 +378,10 @@ Proof.
   { unfold preceded, bind.
     assert (Ns : starts_not is_sp (print_clear_state cs ++ acct ++ T0)).
     { destruct cs; cbn [print_clear_state app]; try reflexivity.
-      rewrite Eacct. unfold starts_not. cbn [app].
-      unfold is_white_space in Hws. unfold is_sp.
-      destruct (N.eqb_spec c0 32); [subst; discriminate |]. destruct (N.eqb_spec c0 9); [subst; discriminate | reflexivity]. }
+      rewrite Eacct. unfold starts_not. cbn [app]. exact Hsp0. }
     rw (space0_none _ Ns).
     apply clear_state_fmt.
-    - rewrite Eacct. unfold starts_not. cbn [app]. unfold is_white_space in Hws. unfold is_sp.
-      destruct (N.eqb_spec c0 32); [subst; discriminate |]. destruct (N.eqb_spec c0 9); [subst; discriminate | reflexivity].
+    - rewrite Eacct. unfold starts_not. cbn [app]. exact Hsp0.
     - destruct cs; [| exact I | exact I]. rewrite Eacct in *. cbn [starts] in Wc.
       apply negb_true_iff in Wc. exact Wc. }
   (* the account *)
@@ -491,16 +505,14 @@ Proof.
   (* the first character after the indentation *)
   assert (Hd : exists c r, Y = c :: r /\ is_sp c = false /\ (c =? 10) = false /\ (c =? 13) = false).
   { unfold wf_posting in W. rewrite !andb_true_iff in W. destruct W as [[[[Wa _] _] _] _].
-    destruct (wf_account_parts _ Wa) as (c0 & r0 & Ea & Hws & _ & _).
+    destruct (wf_account_parts _ Wa) as (c0 & r0 & Ea & Hc0 & _ & _).
+    destruct (nonstop_facts c0 Hc0) as (F1 & F2 & F3 & _).
     rewrite HY. destruct (sp_clear p); cbn [print_clear_state app].
-    - rewrite Ea. cbn [app]. eexists _, _. split; [reflexivity |].
-      unfold is_white_space in Hws. unfold is_sp.
-      destruct (N.eqb_spec c0 32); [subst; discriminate |]. destruct (N.eqb_spec c0 9); [subst; discriminate |].
-      destruct (N.eqb_spec c0 10); [subst; discriminate |]. destruct (N.eqb_spec c0 13); [subst; discriminate |].
-      auto.
+    - rewrite Ea. cbn [app]. eexists _, _. split; [reflexivity |]. auto.
     - eexists _, _. split; [reflexivity |]. auto.
     - eexists _, _. split; [reflexivity |]. auto. }
   destruct Hd as (c & r & Ey & Hs & H10 & H13).
+  destruct sps as [[[[a1 a2] a3] a4] a5].
   eexists _, _. split; [| exact Sp].
   unfold preceded. rewrite Ey at 1. rewrite (bind_ok _ _ _ _ _ _ _ (posting_indent_ok c r Hs H10 H13)).
   rewrite <- Ey.
